@@ -624,6 +624,7 @@ func checkMain(propID, build, verif, tier string, seed int64) int {
 		}
 	}
 	nviol := 0
+	unreplayed := 0
 	for _, sc := range total.Violations {
 		if seen[sc.Violation.Sig] {
 			continue
@@ -650,14 +651,21 @@ func checkMain(propID, build, verif, tier string, seed int64) int {
 			}
 		}
 		if err == nil || !strings.Contains(string(out), "REPRODUCED "+sc.Violation.Sig) {
-			fmt.Fprintf(os.Stderr, "crssim: violation %s did not replay from %s (machinery fault)\n%s\n", sc.Violation.Sig, path, out)
-			return 2
+			// not reported: only what replays is a verdict. If nothing else replays either, the run ends as machinery trouble below.
+			fmt.Fprintf(os.Stderr, "crssim: violation %s did not replay from %s (not reported)\n%s\n", sc.Violation.Sig, path, out)
+			_ = os.Remove(path)
+			unreplayed++
+			continue
 		}
 		fmt.Printf("VIOLATION property=%s replay=%s\n", propID, path)
 		fmt.Printf("  signature: %s\n  %s\n", sc.Violation.Sig, sc.Violation.Msg)
 		total.ReplayFiles = append(total.ReplayFiles, path)
 		nviol++
 		exit = 1
+	}
+	if unreplayed > 0 && nviol == 0 {
+		fmt.Fprintf(os.Stderr, "crssim: %d violation(s) seen during exploration, none of them replayed: machinery fault, no verdict\n", unreplayed)
+		return 2
 	}
 	wall := time.Since(start).Seconds()
 	writeEvidence(prop, outDir, tier, seed, total, wall, nviol, workers)
